@@ -5,13 +5,15 @@ D=/root/scratch-traps-$$
 rm -rf $D; mkdir -p $D; rsync -a --exclude .git /repo/ $D/
 cp /verif/selftest/traps/zz_traps.go $D/types/zz_traps.go
 cat /verif/selftest/traps/traps_contracts.txt >> $D/types/zz_contracts_verif.go
+cp /verif/selftest/traps/zz_traps_keeper.go $D/keeper/zz_traps_keeper.go
+cat /verif/selftest/traps/traps_keeper_contracts.txt >> $D/keeper/zz_contracts_verif.go
 (cd $D && go build ./... ) || { echo "traps do not compile"; rm -rf $D; exit 2; }
 out=$(/verif/bin/govc func -repo $D -f trap 2>&1)
 rm -rf $D
 echo "$out" | grep -E "FALSE_IN_GO|out of reach|UNSUPPORTED" | cut -c1-220
-n=$(grep -c "^//@ func trap" /verif/selftest/traps/traps_contracts.txt)
-bad=$(echo "$out" | grep -E "^ok .*post:FALSE_IN_GO" | grep -v "trapIndexEmpty\|trapMakeNeg" | wc -l)
+n=$(cat /verif/selftest/traps/traps_contracts.txt /verif/selftest/traps/traps_keeper_contracts.txt | grep -c "^//@ func .*trap")
+bad=$(echo "$out" | grep -E "^ok .*post:FALSE_IN_GO" | grep -v "trapIndexEmpty\|trapMakeNeg\|trapFrame" | wc -l)
 # traps 31 and 32 have a true postcondition: what must be reported is the failing safety obligation (index, makeslice)
-for t in trapIndexEmpty trapMakeNeg; do echo "$out" | grep -qE "^FAIL types.$t" || { echo "not reported: $t"; bad=$((bad+1)); }; done
+for t in "types.trapIndexEmpty" "types.trapMakeNeg" "(keeper.Keeper).trapFrame"; do echo "$out" | grep -qF "FAIL $t" || { echo "not reported: $t"; bad=$((bad+1)); }; done
 echo "traps: $n, proved although false: $bad"
 [ $bad -eq 0 ]
